@@ -35,7 +35,7 @@ Proof.
   { apply In_singleton. apply (lands_sound heads_in_body [3] (nth 3 heads_in_head [])); [reflexivity | exact Hm]. }
   unfold step_in_body_0, step_in_body_gen.
   eapply (wp_arm_dispatch_at _ _ _ _ 3); [exact E | reflexivity |].
-  eapply wp_mono; [apply ib_3_ok; [eapply TInv_core_eq; [apply core_eq_set_out | exact I] | exact L]|].
+  eapply wp_mono; [apply ib_3_ok; [eapply TInv_core_eq; [(apply core_eq_set_out; reflexivity) | exact I] | exact L]|].
   intros r s' [Is ->]. split; [apply step_post_done; exact Is | reflexivity].
 Qed.
 
@@ -120,7 +120,7 @@ Proof.
   eapply (wp_arm_dispatch_at _ _ _ _ 32); [exact E | reflexivity |].
   unfold ib_arm_32.
   assert (C : is_chars t = false) by (destruct t; try discriminate; reflexivity).
-  apply ib_void_ok; [eapply TInv_core_eq; [apply core_eq_set_out | exact I] | exact L | |].
+  apply ib_void_ok; [eapply TInv_core_eq; [(apply core_eq_set_out; reflexivity) | exact I] | exact L | |].
   - destruct Nm as [-> | ->]; discriminate.
   - destruct Nm as [-> | ->]; discriminate.
 Qed.
@@ -158,6 +158,6 @@ Proof.
   assert (E : first_match heads_in_body t = 3) by (apply In_singleton; apply (lands_sound heads_in_body [3] h t F Hm)).
   unfold step_in_body, step_in_body_gen.
   eapply (wp_arm_dispatch_at _ _ _ _ 3); [exact E | reflexivity |].
-  eapply wp_mono; [apply ib_3_ok; [eapply TInv_core_eq; [apply core_eq_set_out | exact I] | exact L]|].
+  eapply wp_mono; [apply ib_3_ok; [eapply TInv_core_eq; [(apply core_eq_set_out; reflexivity) | exact I] | exact L]|].
   intros r s' [Is ->]. split; [apply step_post_done; exact Is | reflexivity].
 Qed.
